@@ -57,6 +57,8 @@ pub struct Shard {
     pub replay_dir: String,
     pub max_fps: usize,
     pub replay_args: Vec<String>,
+    /// other properties whose oracles decide this check too (`--also C02,C05`)
+    pub also: Vec<String>,
 }
 
 impl Shard {
@@ -75,6 +77,7 @@ impl Shard {
             replay_dir: replay_dir.to_string(),
             max_fps: 200_000,
             replay_args: Vec::new(),
+            also: std::env::args().collect::<Vec<_>>().windows(2).find(|w| w[0] == "--also").map(|w| w[1].split(',').map(|x| x.to_string()).collect()).unwrap_or_default(),
         }
     }
 
@@ -106,7 +109,19 @@ impl Shard {
                 self.samples.push(json!({"seed": seed, "fingerprint": format!("{:016x}", fp), "scenario": scenario()}));
             }
         }
-        for v in violations {
+        let adopted: Vec<Violation> = violations
+            .iter()
+            .map(|v| {
+                if v.prop != self.prop && self.also.iter().any(|a| a == v.prop) {
+                    // static str for the property id of this check
+                    let p: &'static str = Box::leak(self.prop.clone().into_boxed_str());
+                    Violation { prop: p, rule: format!("{}:{}", v.prop, v.rule), detail: v.detail.clone() }
+                } else {
+                    v.clone()
+                }
+            })
+            .collect();
+        for v in &adopted {
             let sig = v.signature();
             if v.prop != self.prop && self.prop != "ALL" {
                 *self.other_notes.entry(sig).or_insert(0) += 1;
